@@ -1,5 +1,6 @@
 """C17 -- inbound property (see properties.jsonl); parts, oracle and clauses in props/inbound_common.py"""
 from props import inbound_common as B
+from props import C19 as HS
 
 RULE = ("sequences of peer packets (all packet kinds, ids 1..3, QoS 0/1/2, aliases, valid and invalid filters) "
         "interleaved with completions of gated publish handlers (ok / error / negative ack) and of the gated protocol "
@@ -16,13 +17,40 @@ USES_GEN = True
 WANT = ("C17",)
 
 
+class AliasLimitAtHandshake(HS.HsPart):
+    """where the limit comes from: the Topic Alias Maximum in force after the handshake is the one announced in
+    CONNACK (configured value or the application's override, 0 included) -- the handshake engine's cases that send
+    a PUBLISH with a topic alias; clauses 8 (announced limits) and 9 (limits in force) of its scan"""
+
+    def py_oracle(self, case, obs):
+        v = HS.py_oracle(case, obs)
+        return v if v.startswith("0,8") or v.startswith("0,9") else "1"
+
+
 def parts(tier, rng):
-    return B.make_parts(tier, rng, WANT)
+    res = B.make_parts(tier, rng, WANT)
+    for p in HS.parts(tier, rng):
+        if not isinstance(p, HS.HsPart):
+            continue
+        cases = [c for c in p.cases if any(f.startswith("2,") and ",35," in f for f in c.split(";")[3:])]
+        if cases:
+            res.append(AliasLimitAtHandshake("alias-limit-at-handshake-" + p.name, "hs", cases, shards=16, rule=p.rule))
+    return res
 
 
 def replay_parts(rp):
+    if rp.get("engine") == "hs":
+        return [AliasLimitAtHandshake("replay", "hs", [rp["case"]], shards=1)]
     return B.replay_parts(rp, WANT)
 
 
-known_signature = B.known_signature
-clause_text = B.clause_text
+def known_signature(part, case, impl_obs, oracle):
+    if isinstance(part, HS.HsPart):
+        return None
+    return B.known_signature(part, case, impl_obs, oracle)
+
+
+def clause_text(part, oracle):
+    if isinstance(part, HS.HsPart):
+        return HS.clause_text(part, oracle)
+    return B.clause_text(part, oracle)
